@@ -137,6 +137,14 @@ pub fn verify_presentation(
         // every predicate requested from this credential must be the one its sub-proof proves
         verify_requested_predicates(&requested_predicates, sub_proof)?;
 
+        // an attribute presented as unrevealed must at least be an attribute of the credential
+        verify_unrevealed_attributes(
+            pres_req,
+            &presentation.requested_proof,
+            sub_proof_index as u32,
+            proof_verifier.get_schema(&identifier.schema_id)?,
+        )?;
+
         proof_verifier.add_sub_proof(
             sub_proof,
             &identifier.schema_id,
@@ -358,6 +366,46 @@ fn verify_requested_predicates(requested: &[Predicate], sub_proof: &SubProof) ->
                 predicate.p_type,
                 predicate.value
             ));
+        }
+    }
+    Ok(())
+}
+
+fn verify_unrevealed_attributes(
+    pres_req: &PresentationRequestPayload,
+    requested_proof: &RequestedProof,
+    sub_proof_index: u32,
+    schema: &Schema,
+) -> Result<()> {
+    for (referent, info) in &requested_proof.unrevealed_attrs {
+        if info.sub_proof_index != sub_proof_index {
+            continue;
+        }
+        let requested = pres_req.requested_attributes.get(referent).ok_or_else(|| {
+            err_msg!(
+                ProofRejected,
+                "Attribute with referent \"{}\" not found in ProofRequests",
+                referent
+            )
+        })?;
+        let names = requested
+            .name
+            .iter()
+            .chain(requested.names.iter().flatten());
+        for name in names {
+            let name = attr_common_view(name);
+            if !schema
+                .attr_names
+                .0
+                .iter()
+                .any(|attr| attr_common_view(attr) == name)
+            {
+                return Err(err_msg!(
+                    ProofRejected,
+                    "Unrevealed attribute \"{}\" is not an attribute of the presented credential",
+                    name
+                ));
+            }
         }
     }
     Ok(())
